@@ -134,15 +134,17 @@ Fixpoint remove_key (k : str) (e : env) : env :=
 Definition esc_ansi_c (c : N) : str :=
   if c =? c_bs then [c_bs; c_bs] else if c =? c_sq then [c_bs; c_sq] else [c].
 Definition esc_ansi (v : str) : str := flat_map esc_ansi_c v.
-Definition esc_dq_c (c : N) : str :=
-  if (c =? c_bs) || (c =? c_dq) || (c =? c_dollar) || (c =? c_bt) then [c_bs; c] else [c].
-Definition esc_dq (v : str) : str := flat_map esc_dq_c v.
-
-Definition quote_scalar (U : uni) (v : str) : str :=
-  if py_isalnum U v then v
-  else if negb (memN c_sq v) then c_sq :: v ++ [c_sq]
+(* _quote_env_value: '...' or, when the text has a quote, $'...' *)
+Definition quote_hard (v : str) : str :=
+  if negb (memN c_sq v) then c_sq :: v ++ [c_sq]
   else c_dollar :: c_sq :: esc_ansi v ++ [c_sq].
-Definition quote_elem (v : str) : str := c_dq :: esc_dq v ++ [c_dq].
+Definition quote_scalar (U : uni) (v : str) : str :=
+  if py_isalnum U v then v else quote_hard v.
+(* _quote_env_element: plain text keeps the historic "..." form *)
+Definition dq_unsafe (c : N) : bool :=
+  (c =? c_bs) || (c =? c_dq) || (c =? c_dollar) || (c =? c_bt) || (c =? 1) || (c =? 127).
+Definition quote_elem (v : str) : str :=
+  if existsb dq_unsafe v then quote_hard v else c_dq :: v ++ [c_dq].
 Fixpoint elems (i : N) (vs : list str) : list str :=
   match vs with
   | [] => []
@@ -326,24 +328,28 @@ Definition ansi_simple (c : N) : option N :=
    string in bash, >= 128 is a raw byte, not a character) *)
 Definition byte_ok (n : N) : bool := (1 <=? n) && (n <? 128).
 
-(* one shell word (value part), starting in mode m: Some (value, rest); rest starts at the
+(* [arr] = the word is an element of a compound array assignment: bash 5.2 stores the control
+   characters \001 (CTLESC) and \177 (CTLNUL) of a DOUBLE-quoted part of such a word with an
+   extra \001 in front (observed with real bash by the harness; the repaired generator never
+   double-quotes them).
+   one shell word (value part), starting in mode m: Some (value, rest); rest starts at the
    unquoted terminator (blank, newline, `)`) or is empty.  None: unterminated quote, NUL,
    an active expansion ($x, `x`, $(x)), a metacharacter, or an escape outside the fragment *)
-Fixpoint word (m : mode) (s : str) {struct s} : option (str * str) :=
+Fixpoint word (arr : bool) (m : mode) (s : str) {struct s} : option (str * str) :=
   match m with
   | MPlain =>
       match s with
       | [] => Some ([], [])
       | c :: s' =>
           if is_term c then Some ([], s)
-          else if c =? c_sq then word MSq s'
-          else if c =? c_dq then word MDq s'
+          else if c =? c_sq then word arr MSq s'
+          else if c =? c_dq then word arr MDq s'
           else if c =? c_dollar then
             match s' with
-            | d :: s'' => if d =? c_sq then word MAnsi s'' else None
+            | d :: s'' => if d =? c_sq then word arr MAnsi s'' else None
             | [] => None
             end
-          else if plain_char c then cons1 c (word MPlain s')
+          else if plain_char c then cons1 c (word arr MPlain s')
           else None
       end
   | MSq =>
@@ -351,39 +357,40 @@ Fixpoint word (m : mode) (s : str) {struct s} : option (str * str) :=
       | [] => None
       | c :: s' =>
           if c =? 0 then None
-          else if c =? c_sq then word MPlain s'
-          else cons1 c (word MSq s')
+          else if c =? c_sq then word arr MPlain s'
+          else cons1 c (word arr MSq s')
       end
   | MDq =>
       match s with
       | [] => None
       | c :: s' =>
           if c =? 0 then None
-          else if c =? c_dq then word MPlain s'
+          else if c =? c_dq then word arr MPlain s'
           else if (c =? c_dollar) || (c =? c_bt) then None
           else if c =? c_bs then
             match s' with
             | [] => None
             | d :: s'' =>
                 if d =? 0 then None
-                else if d =? c_nl then word MDq s''                     (* line continuation *)
-                else if dq_escapable d then cons1 d (word MDq s'')
-                else cons1 c_bs (cons1 d (word MDq s''))
+                else if d =? c_nl then word arr MDq s''                     (* line continuation *)
+                else if dq_escapable d then cons1 d (word arr MDq s'')
+                else cons1 c_bs (cons1 d (word arr MDq s''))
             end
-          else cons1 c (word MDq s')
+          else if arr && ((c =? 1) || (c =? 127)) then cons1 1 (cons1 c (word arr MDq s'))
+          else cons1 c (word arr MDq s')
       end
   | MAnsi =>
       match s with
       | [] => None
       | c :: s' =>
           if c =? 0 then None
-          else if c =? c_sq then word MPlain s'
+          else if c =? c_sq then word arr MPlain s'
           else if c =? c_bs then
             match s' with
             | [] => None
             | d :: s'' =>
                 match ansi_simple d with
-                | Some x => cons1 x (word MAnsi s'')
+                | Some x => cons1 x (word arr MAnsi s'')
                 | None =>
                     if is_octal d then
                       match s'' with
@@ -393,15 +400,15 @@ Fixpoint word (m : mode) (s : str) {struct s} : option (str * str) :=
                             | f :: s4 =>
                                 if is_octal f then
                                   let n := ((d - 48) * 64 + (e - 48) * 8 + (f - 48)) mod 256 in
-                                  if byte_ok n then cons1 n (word MAnsi s4) else None
+                                  if byte_ok n then cons1 n (word arr MAnsi s4) else None
                                 else
                                   let n := (d - 48) * 8 + (e - 48) in
-                                  if byte_ok n then cons1 n (word MAnsi s3) else None
+                                  if byte_ok n then cons1 n (word arr MAnsi s3) else None
                             | [] => None
                             end
                           else
                             let n := d - 48 in
-                            if byte_ok n then cons1 n (word MAnsi s'') else None
+                            if byte_ok n then cons1 n (word arr MAnsi s'') else None
                       | [] => None
                       end
                     else if d =? 120 then                                 (* \xH, \xHH *)
@@ -415,8 +422,8 @@ Fixpoint word (m : mode) (s : str) {struct s} : option (str * str) :=
                                   match hexval f with
                                   | Some hf =>
                                       let n := he * 16 + hf in
-                                      if byte_ok n then cons1 n (word MAnsi s4) else None
-                                  | None => if byte_ok he then cons1 he (word MAnsi s3) else None
+                                      if byte_ok n then cons1 n (word arr MAnsi s4) else None
+                                  | None => if byte_ok he then cons1 he (word arr MAnsi s3) else None
                                   end
                               | [] => None
                               end
@@ -424,10 +431,10 @@ Fixpoint word (m : mode) (s : str) {struct s} : option (str * str) :=
                       | [] => None
                       end
                     else if (d =? 117) || (d =? 85) || (d =? 99) || (d =? 0) then None   (* \u \U \c *)
-                    else cons1 c_bs (cons1 d (word MAnsi s''))            (* unknown: kept *)
+                    else cons1 c_bs (cons1 d (word arr MAnsi s''))            (* unknown: kept *)
                 end
             end
-          else cons1 c (word MAnsi s')
+          else cons1 c (word arr MAnsi s')
       end
   end.
 
@@ -491,7 +498,7 @@ Fixpoint arr_elems (fuel : nat) (s : str) : option (list (N * str) * str) :=
             match take_index s' with
             | None => None
             | Some (i, s2) =>
-                match word MPlain s2 with
+                match word true MPlain s2 with
                 | None => None
                 | Some (v, s3) =>
                     match arr_elems f s3 with
@@ -540,7 +547,7 @@ Fixpoint assigns (fuel : nat) (exp : bool) (s : str) : option (list assignment *
                         | Some (l, r2) => Some (BArr (arr_norm l), r2)
                         | None => None
                         end
-                      else match word MPlain r with
+                      else match word false MPlain r with
                            | Some (v, r2) => Some (BStr v, r2)
                            | None => None
                            end
@@ -621,8 +628,10 @@ Definition run_gen (i : gen_input) : val :=
   | inr t => VS t
   end.
 
-(* stream "frame": the bytes send_env writes for given data *)
-Definition run_frame (data : str) : val := VS (frame data).
+(* stream "frame": (text, path) -> the bytes send_env writes inline, the command line of the
+   file variant, and the bytes of the transfer file *)
+Definition run_frame2 (i : str * str) : val :=
+  VL [VS (frame (fst i)); VS (frame_file (snd i)); VS (encode (fst i))].
 
 (* the state of the named variables, as the harness dumps it from a real bash:
    [name; exported; is_array; [[index; value] ...]] for every name that is set, in order *)
@@ -652,3 +661,15 @@ Definition bash_differs (i : list str * str) (r : val) : bool :=
   match run_bash i with Some v => negb (val_eqb v r) | None => false end.
 Definition bash_outside (i : list str * str) (r : val) : bool :=
   match run_bash i with Some _ => false | None => true end.
+
+(* stream "e2e", model side: generate, evaluate with the bash model, dump the keys *)
+Definition run_e2e (i : gen_input) : val :=
+  let '(an, al, ro, e) := i in
+  match generate_env_str (mkU an al) ro e with
+  | inl x => enc_gerr x
+  | inr t =>
+      match bash_eval t with
+      | Some log => VL (enc_state (map fst e) log)
+      | None => VErr [117;110;115;117;112;112;111;114;116;101;100]
+      end
+  end.
